@@ -72,10 +72,10 @@ pub fn gen_cfg(rng: &mut Rng, prof: &Profile, tier_thorough: bool) -> SimCfg {
         start_height: *rng.pick(&[100u32, 800_000, 1, 0, 4_000_000_000]),
         fault_tier: if tier_thorough && rng.chance(1, 3) { 2 } else if rng.chance(1, 2) { 1 } else { 0 },
         max_faults: 2,
-        max_crashes: if crashy { rng.below(3) as u32 } else { 0 },
+        max_crashes: if *prof == Profile::Timeout { 1 + rng.below(2) as u32 } else if crashy { rng.below(3) as u32 } else { 0 },
         max_steps: 400,
         probe: *prof == Profile::Probe,
-        age_pending_secs: None,
+        age_pending_secs: if *prof == Profile::Timeout && mpp_s >= 5 { *rng.pick(&[None, Some(0u64), Some(mpp_s / 2), Some(mpp_s + 10), Some(3)]) } else { None },
     }
 }
 
@@ -225,7 +225,12 @@ pub fn gen_plan(rng: &mut Rng, prof: &Profile, thorough: bool) -> Plan {
         });
         let amt_field = match rng.below(if *prof == Profile::Classify { 6 } else { 12 }) {
             0 => AmtField::Bytes(tu64(amount)),
-            1 => AmtField::Bytes(tu64(amount.wrapping_add(1))),
+            1 => AmtField::Bytes(tu64(match rng.below(4) {
+                0 => amount.wrapping_add(1),
+                1 => amount.saturating_sub(1),
+                2 => amount / 10,
+                _ => amount / 2 + 1,
+            })),
             2 => AmtField::Bytes(rng.bytes(9)),
             3 => AmtField::Bytes({
                 let mut b = vec![0u8; 8 - tu64(amount).len()];
@@ -323,9 +328,25 @@ pub fn gen_plan(rng: &mut Rng, prof: &Profile, thorough: bool) -> Plan {
                 metadata,
                 raw_payload_hex: None,
                 label,
+                gate: Gate::None,
             });
             uid += 1;
             next_id += 1;
+        }
+        // the sender retries the same invoice with a fresh, identical set (new HTLC ids); the
+        // scheduler may deliver it while the first lifecycle is still finishing its bookkeeping
+        if matches!(prof, Profile::Crashy | Profile::Probe | Profile::Mixed | Profile::Reject) && rng.chance(1, 3) {
+            let first = htlcs.len() - amounts.len();
+            let copies: Vec<HtlcSpec> = htlcs[first..].to_vec();
+            let first_uid = uid;
+            for mut c in copies {
+                c.uid = uid;
+                c.htlc_id = next_id;
+                c.gate = if uid == first_uid { Gate::HashIdle } else { Gate::After(first_uid) };
+                htlcs.push(c);
+                uid += 1;
+                next_id += 1;
+            }
         }
         // a late extra HTLC for the same set (arrives whenever the scheduler picks it)
         if rng.chance(1, 4) {
@@ -339,6 +360,38 @@ pub fn gen_plan(rng: &mut Rng, prof: &Profile, thorough: bool) -> Plan {
             uid += 1;
             next_id += 1;
         }
+    }
+    // intruders: an HTLC locked to another payment hash that carries *the same invoice string*
+    // as an honest set (it must never be pooled with that set or settled with its preimage)
+    let n_intruders = match prof {
+        Profile::Hashes => 1 + rng.below(2) as usize,
+        Profile::Mixed | Profile::Classify | Profile::Crashy => rng.weighted(&[3, 1]),
+        _ => 0,
+    };
+    for _ in 0..n_intruders {
+        let candidates: Vec<usize> = (0..htlcs.len()).filter(|k| matches!(htlcs[*k].metadata, Metadata::Tramp { .. })).collect();
+        if candidates.is_empty() {
+            break;
+        }
+        let src = htlcs[*rng.pick(&candidates)].clone();
+        let mut x = src.clone();
+        x.uid = uid;
+        x.htlc_id = next_id;
+        x.gate = Gate::None;
+        x.htlc_hash = if n_hashes > 1 && rng.chance(1, 2) {
+            let other: Vec<[u8; 32]> = hashes.iter().map(|h| h.hash).filter(|h| *h != src.htlc_hash).collect();
+            *rng.pick(&other)
+        } else {
+            let mut r = [0u8; 32];
+            r.copy_from_slice(&rng.bytes(32));
+            r
+        };
+        x.label = ref_label(&x.htlc_hash, &x.onion_scid, &x.forward_msat, &x.metadata, cfg.allow_self);
+        // right after the honest HTLC, or at the end
+        let pos = if rng.chance(1, 2) { htlcs.iter().position(|h| h.uid == src.uid).map(|p| p + 1).unwrap_or(htlcs.len()) } else { htlcs.len() };
+        htlcs.insert(pos, x);
+        uid += 1;
+        next_id += 1;
     }
     // non-trampoline traffic
     let n_plain = match prof {
@@ -380,6 +433,7 @@ pub fn gen_plan(rng: &mut Rng, prof: &Profile, thorough: bool) -> Plan {
             metadata,
             raw_payload_hex: None,
             label,
+            gate: Gate::None,
         });
         uid += 1;
         next_id += 1;
